@@ -3,19 +3,19 @@ CONSTANTS
   VALS = {"v1", "v2", "v3"}
   FORD <- c_FORD
   TOKENS = {"t1", "t2"}
-  FIX = {"L7", "L8", "L25S", "WINDOW", "L26", "RPNIL"}
-  CFGS <- c_CFGS
+  FIX = {"L7", "L8", "L25S", "FROMTO", "WINDOW", "L26"}
+  CFGS <- d_CFGS
   PSS <- c_PSS
   PSS2 <- c_PSS2
   TWOMSG = FALSE
   BADBASE = FALSE
   BADNONCE = FALSE
-  MAXH = 4
-  MAXTX = 2
-  MAXOPS = 11
+  MAXH = 5
+  MAXTX = 1
+  MAXOPS = 9
   MAXRESTART = 1
-  UPDENDS = {}
-  MAXUPD = 0
+  UPDENDS = {9}
+  MAXUPD = 1
   SECONDBAD = FALSE
   FAILBUDGET = 99
 VIEW View
